@@ -209,7 +209,7 @@ def gen_cases(ctx, consts):
             for k in cut[:30 if not thorough else 400]:
                 add("trunc-ext-" + name, [doc], ext[:k], fl + "d")
     # 3. mutations of document and of the external entity
-    n_mut = 1400 if not thorough else 100000
+    n_mut = 1400 if not thorough else 60000
     for _ in range(n_mut):
         name, doc, ext, fl = rng.choice(corp)
         which = rng.random()
@@ -361,7 +361,7 @@ def run(ctx):
     import C04 as C4
     rcases = [("F1", C4.F1_WITNESS)] + C4.gen_reader_cases(ctx, consts)
     rcases = [c for c in rcases if c[0] == "F1" or c[0].startswith("pairs")] + \
-             [c for c in rcases if c[0].startswith("rand")][:250] + [c for c in rcases if c[0].startswith("slide")][:25]
+             [c for c in rcases if c[0].startswith("rand")][:200] + [c for c in rcases if c[0].startswith("slide")][:12]
     rreqs = [c[1] for c in rcases]
     ans, status, err = run_watchdog(xh04, rreqs, SAN_ENV)
     ctx.count(len(ans))
